@@ -1320,6 +1320,9 @@ func Run(c *hx.Ctx) error {
 			sc.runCond(c, r)
 			done++
 		}
+		for i := 0; i < 3; i++ {
+			sc.runHint(c, r)
+		}
 		// write batches through the real PointsWriter.routeAndMapOriginRows (batch.go), then whole
 		// statements through the real ClusterShardMapper.MapShards (readmap.go); capped, the lines are long
 		if batches >= maxBatches {
